@@ -24,5 +24,5 @@ DELIVERABLES, for K = 1..{n}, in /tmp/seed/{lp}/mK/ :
  - patch.diff : `git diff` against the worktree HEAD (must apply with `git apply` on a clean checkout of the same commit); touch library sources only, no test files.
  - a demonstration: demo_test.go (a Go test file; say in meta which package directory it must be copied into and the `go test -run` command, plus any env such as GODEBUG) or a small main program, that FAILS with the change applied and PASSES on the clean tree. The demo must call only the public API of the library (or exported names of the package it lives in).
  - meta.json : {{"property": "{pid}", "title": "...", "what_it_breaks": "...", "needs_to_manifest": "...", "files_changed": [...], "demo_package_dir": "...", "demo_command": "...", "demo_env": "...", "existing_tests_run": ["command -> result", ...]}}
-Verify each change yourself on a clean worktree state: demo passes without, compiles with, existing tests pass with, demo fails with. Reset the worktree between changes (`git -C /tmp/seed/{lp}/wt checkout -- . && git -C /tmp/seed/{lp}/wt clean -fd`).
+Verify each change yourself on a clean worktree state: demo passes without, compiles with, existing tests pass with, demo fails with. Reset the worktree between changes (`git -C /tmp/seed/{lp}/wt checkout -- . && git -C /tmp/seed/{lp}/wt clean -fd`); never use `git stash` (it is shared between all worktrees of /repo and other agents work concurrently).
 At the end remove the worktree and its build output (`git -C /repo worktree remove --force /tmp/seed/{lp}/wt`), keep only /tmp/seed/{lp}/mK/. Final message: one short paragraph per change (what, where, what it needs to manifest, test results).""")
